@@ -232,6 +232,11 @@ func sameEmis(a, b []emission) bool {
 // RunAPI executes one call sequence on a real instance and judges C10:
 //   - the result class of every call and Running() after it are those of the documented state machine (the model),
 //   - non-interference: deleting the calls that were rejected (ST / II) leaves everything observable unchanged.
+//
+// MetaSample thins the metamorphic re-runs out when the enumeration is large (thorough tier): floods on one case in MetaSample,
+// insertions on one case in 8 * MetaSample; cases with six or more accepted calls always get both
+var MetaSample uint32 = 1
+
 func RunAPI(c APICase) APIResult {
 	res := APIResult{ID: c.ID, Case: c, Violations: []Violation{}, Notes: []string{}}
 	calls := make([]APICall, len(c.Hist))
@@ -292,7 +297,7 @@ func RunAPI(c APICase) APIResult {
 	}
 	// ... and once every rejected call is REPEATED many times in place (a rejected call is a stuttering step however often it is
 	// made: counters of refused calls, if any, must not reach the state): 253..258 times, and 65 533..65 538 times on one case in a hundred
-	if len(kept) < len(calls) && len(res.Violations) == 0 {
+	if len(kept) < len(calls) && len(res.Violations) == 0 && (hashStr(c.ID)%MetaSample == 0 || len(kept) >= 6) {
 		// (a counter of one byte wraps to a given value for one number of repetitions only: 253..258 are all tried when the case has
 		// few rejected calls, one of them otherwise)
 		repsList := []int{253 + int(hashStr(c.ID)%6)}
@@ -337,7 +342,7 @@ func RunAPI(c APICase) APIResult {
 	}
 	// ... and once a call that the instance REFUSES is inserted at any position of the accepted calls (End before its time, a
 	// third NextTimeout, Start on a running instance, an out-of-range index): whatever is refused leaves every later call as it was
-	if len(res.Violations) == 0 && len(kept) >= 2 && (hashStr(c.ID)%8 == 0 || len(kept) >= 6) {
+	if len(res.Violations) == 0 && len(kept) >= 2 && (hashStr(c.ID)%(8*MetaSample) == 0 || len(kept) >= 6) {
 		var base APIResult
 		obs0 := runAPICalls(c, kept, &base)
 		probes := []APICall{{Op: "End"}, {Op: "NextTimeout"}, {Op: "Start"}, {Op: "FD", I: 256}, {Op: "HB", I: -1, K: "vec"}}
